@@ -36,6 +36,8 @@ def oracle(case, replies):
             unamb = rep == "ok amb=0"
             if ll1 and rep != "ok amb=0":
                 return "ll1-reported-ambiguous: predict sets of all alternatives are pairwise disjoint, constructor says %r (smart=%s)" % (rep, smart)
+        elif op == "amb" and check and ll1 and rep != "amb=0":
+            return "ll1-reported-ambiguous-after-parsing: an LL(1) grammar is reported ambiguous once texts have been parsed (%s, smart=%s)" % (rep, smart)
         elif op == "p" and check and unamb:
             text = ll.dec_p(line)
             toks = ll.expected_tokens(case, text)
